@@ -326,8 +326,9 @@ def gen_tamper(rng, prot_is_request, sender, recipient, seq_used):
         if f == "group": v = bytes([(v[0] if v else 0) | 0x20]) + v[1:]
         return ["optset", v.hex()]
     if k < 0.88:
-        f = rng.choice(["addpiv", "addkid", "addkidwrong", "addctx", "pivrand", "empty", "group"])
-        if f == "addpiv": v = build_oscore_option(rng.choice([piv, b"\x00", minbytes(seq_used + 1) or b"\0"]), None, None)
+        f = rng.choice(["addpiv", "addkid", "addkidwrong", "addctx", "pivrand", "empty", "group", "pivpad", "pivpad"])
+        if f == "pivpad": v = build_oscore_option((b"\0" * rng.randint(1, 5 - len(piv)) + piv) if len(piv) < 5 else piv[1:], kid if sender.get("send_kid") else None, None)
+        elif f == "addpiv": v = build_oscore_option(rng.choice([piv, b"\x00", minbytes(seq_used + 1) or b"\0"]), None, None)
         elif f == "addkid": v = build_oscore_option(None, kid, None)
         elif f == "addkidwrong": v = build_oscore_option(None, kid + b"\x01", None)
         elif f == "addctx": v = build_oscore_option(None, None, ctx if ctx is not None else b"\x01")
@@ -357,8 +358,11 @@ class C11(fw.Property):
                   "response-to-request binding), nonce and AAD injectivity, only DecodeError/ProtectionInvalid/ReplayError/NotAProtectedMessage up to decryption. "
                   "All constants, the extended option-field codec and the replay window come from the source on every run; the hand-written model is tied to the "
                   "code by running both (with the same symbolic AEAD, and with stub AES-CCM) on scripted protect/tamper/unprotect scenarios.")
-    level_note = ("Partial: the round trip is proved for requests and for first responses (reused nonce); responses with an own Partial IV (notifications) / responses_send_kid "
-                  "are covered by the correspondence streams only. unprotect_finish does not model per-option value validation (invalid UTF-8 in an inner string option). "
+    level_note = ("Round trip proved for requests (default kid_context) and for every response (reused nonce or own Partial IV, with/without responses_send_kid, any outer Observe); "
+                  "side condition tag_bytes+1 <= |ciphertext| is a hypothesis on the AEAD's expansion. The tamper statement is proved with its limits explicit: the PIV field of a "
+                  "request and the effective KID / ID context are bound, the KID / ID-context fields themselves, trailing option bytes and the encoding of a response's own PIV are not "
+                  "(OSCORE option not in the AAD): refuted witnesses in Props/C11.v, open known findings C11:accepted-option-change:*. "
+                  "unprotect_finish does not model per-option value validation (invalid UTF-8 in an inner string option). "
                   "Cryptography is idealised (AEAD hypotheses, injective KDF) and stubbed (pure-Python AES-CCM/HKDF; the real cryptography wheel is not installed). "
                   "Not modelled: Group OSCORE, Proxy-Uri splitting in _split_message, Echo recovery (C12), key derivation. "
                   "_compress/_uncompress/_construct_nonce are hand-modelled (py2v.py does not support dicts, bytes*int, generator expressions); "
@@ -835,6 +839,15 @@ class C11(fw.Property):
                 if pivkey(f) != pivkey(fo): return ("C11:accepted-modified-piv", "Partial IV changed from %r to %r and the message was accepted (op %d)" % (fo["piv"], f["piv"], oi))
                 if eff(f)[0] != eff(fo)[0]: return ("C11:accepted-modified-kid", "KID changed from %r to %r and the message was accepted (op %d)" % (fo["kid"], f["kid"], oi))
                 if eff(f)[1] != eff(fo)[1]: return ("C11:accepted-modified-idcontext", "ID context changed from %r to %r and the message was accepted (op %d)" % (fo["ctx"], f["ctx"], oi))
+                # ---- strict reading of "any change to the partial IV, key ID or ID context in the OSCORE option makes unprotection fail":
+                # the fields of the accepted option must be the sender's, byte for byte and in presence (open known findings, see notes/C11.md)
+                if build_oscore_option(f["piv"], f["kid"], f["ctx"]) != curopt:
+                    return ("C11:accepted-option-change:trailing-bytes", "OSCORE option %s (sent: %s) carries bytes beyond its fields and the message was accepted (op %d)" % (curopt.hex(), next(x for n, x in orig["opts"] if n == 9), oi))
+                if f["piv"] != fo["piv"]: return ("C11:accepted-option-change:piv-zero-padded", "Partial IV re-encoded from %s to %s and the message was accepted (op %d)" % (fo["piv"].hex(), f["piv"].hex(), oi))
+                if f["kid"] != fo["kid"]:
+                    return ("C11:accepted-option-change:kid-%s" % ("removed" if f["kid"] is None else "added"), "KID field changed from %r to %r (same effective key id) and the message was accepted (op %d)" % (fo["kid"], f["kid"], oi))
+                if f["ctx"] != fo["ctx"]:
+                    return ("C11:accepted-option-change:idcontext-%s" % ("removed" if f["ctx"] is None else "added"), "ID context field changed from %r to %r (same effective id context) and the message was accepted (op %d)" % (fo["ctx"], f["ctx"], oi))
                 if prov["is_req"] == is_resp_call: return ("C11:accepted-wrong-direction", "a %s was accepted as a %s" % ("request" if prov["is_req"] else "response", "response" if is_resp_call else "request"))
                 if is_resp_call and (H(rid_in["kid"]), H(rid_in["piv"])) != prov["bind"]:
                     return ("C11:accepted-foreign-request-binding", "a response to request (kid %s, piv %s) was accepted for request (kid %s, piv %s) (op %d)" % (
